@@ -84,4 +84,10 @@ def selftest():
     assert iv(256, 128) == struct.pack("<QQQQ", 0xE1111906964D7260, 0x883DAAA77C8D811C, 0x10080DF491960F7A, 0xCCF7DDE5B45BC1C2)
     assert iv(256, 160) == struct.pack("<QQQQ", 0x1420231472825E98, 0x2AC4E9A25A77E590, 0xD47A58568838D63E, 0x2DD2E4968586AB7D)
     assert iv(512, 512)[:8] == struct.pack("<Q", 0x4903ADFF749C51CE)
-    return "Skein 1.3 appendix vectors: 6 hash, 2 bit-length, 2 MAC, 1 tree, 3 configuration IVs"
+    # independently published digests (not quoted in the repository)
+    assert skein(512, 512, b"").hex().upper() == ("BC5B4C50925519C290CC634277AE3D6257212395CBA733BBAD37A4AF0FA06AF4"
+                                                  "1FCA7903D06564FEA7A2D3730DBDB80C1F85562DFCC070334EA4D1D9E72CBA7A")
+    assert skein(1024, 1024, b"").hex().upper().startswith("0FFF9563BB3279289227AC77D319B6FFF8D7E9F09DA1247B72A0A265CD6D2A62")
+    assert skein(512, 256, b"").hex() == "39ccc4554a8b31853b9de7a1fe638a24cce6b35a55f2431009e18780335d2621"
+    assert skein(512, 512, b"The quick brown fox jumps over the lazy dog").hex().startswith("94c2ae036dba8783d0b3f7d6cc111ff810702f5c77707999")
+    return "Skein 1.3 appendix vectors: 6 hash, 2 bit-length, 2 MAC, 1 tree, 3 configuration IVs; 4 independently published digests"
